@@ -37,11 +37,13 @@ pub fn crash_spec(r: &mut Rng, tid: i32, rsp: u64, rip: u64) -> CrashSpec {
 }
 
 pub fn thread_count(r: &mut Rng) -> usize {
-    match r.below(12) {
-        0..=2 => 1,
-        3..=7 => r.range(2, 5) as usize,
-        8..=10 => r.range(6, 24) as usize,
-        _ => r.range(25, 64) as usize,
+    match r.below(48) {
+        0..=11 => 1,
+        12..=31 => r.range(2, 5) as usize,
+        32..=43 => r.range(6, 24) as usize,
+        44..=46 => r.range(25, 64) as usize,
+        // beyond the bound the statements name: still has to work
+        _ => r.range(65, 130) as usize,
     }
 }
 
@@ -235,6 +237,13 @@ pub fn rich_dump(r: &mut Rng, prop: &str, seed: u64, profile: &str, benign_fault
         }
         opts.direct_auxv = Some(d);
         tags.push("directauxv".into());
+    }
+    if r.chance(1, 8) {
+        let start = 0x6800_0000_0000u64;
+        let len = *r.pick(&[1u64 << 32, (1u64 << 32) + 0x1000, 1u64 << 40]);
+        b.world.regions.push(RegionSpec { start, len, perms: (*r.pick(&["---p", "rw-p"])).into(), offset: 0, inode: 0, name: B(Vec::new()), deleted: false, content: Content::Zero });
+        b.world.regions.sort_by_key(|x| x.start);
+        tags.push("huge-mapping".into());
     }
     let mut events = Vec::new();
     let mut faults = Vec::new();
@@ -1456,6 +1465,22 @@ fn gen_c18(r: &mut Rng, seed: u64) -> Scenario {
         }
         b.world.fds.push(FdSpec { fd: fdn, target: B(target), mode, stat_fails: false, link_fails: false });
     }
+    if nfds > 0 && r.chance(1, 4) {
+        for (k, n) in [1_000_000u32, 2_147_483_647, 4_294_967_295].iter().enumerate() {
+            if r.coin() {
+                b.world.fds.push(FdSpec { fd: *n, target: B::s(&format!("/tmp/high-fd-{}", k)), mode: 0o100600, stat_fails: false, link_fails: false });
+            }
+        }
+        tags.push("huge-fd-numbers".into());
+    }
+    if r.chance(1, 4) {
+        // address-space reservations of runtimes: far larger than 4 GiB, never touched
+        let start = 0x6800_0000_0000u64;
+        let len = *r.pick(&[1u64 << 32, (1u64 << 32) + 0x1000, 1u64 << 36, 1u64 << 40]);
+        b.world.regions.push(RegionSpec { start, len, perms: "---p".into(), offset: 0, inode: 0, name: B(Vec::new()), deleted: false, content: Content::Zero });
+        b.world.regions.sort_by_key(|x| x.start);
+        tags.push("huge-reservation".into());
+    }
     tags.push(format!("fds{}", match nfds { 0 => "0", 1..=5 => "1-5", _ => "6-40" }));
     let mut events = Vec::new();
     if nfds > 2 && r.chance(1, 4) {
@@ -1745,6 +1770,22 @@ fn gen_c08(r: &mut Rng, seed: u64) -> Scenario {
             }
             b.world.files.retain(|f| f.path.0 != p.as_bytes());
             push_tags(&mut tags, &["deleted"]);
+        }
+    }
+    // the same file mapped a second time elsewhere (two separate groups of the same name)
+    if b.modules.len() > 1 && r.chance(1, 5) {
+        let m = &b.modules[1 + r.below(b.modules.len() as u64 - 1) as usize];
+        if m.image.data_vaddr == m.image.data_off {
+            let base2 = LIB_BASE + 0x7800_0000;
+            let path = m.path.clone();
+            let img = m.image.clone();
+            let mut mem = img.file.clone();
+            if let Some(o) = img.dt_strtab_val_off {
+                let vaddr = base2 + img.dynstr_off;
+                mem[o as usize..o as usize + 8].copy_from_slice(&vaddr.to_le_bytes());
+            }
+            elf_regions(&path, base2, &img, 7171, &mem, &mut b.world.regions);
+            push_tags(&mut tags, &["mapped-twice"]);
         }
     }
     // the loader's reserved gap directly after a library (nothing of the file follows it)
